@@ -243,6 +243,40 @@ CLAIMED["C28"] = (
     "field; uploadinfo/digest calls are opaque.",
     "contract-based deductive verification (loop invariants over sort postconditions, call-site obligations, ghost last-key + SMT)", "6/C28")
 
+CLAIMED["C16"] = (
+    "Proof of the value-independence half of the statement for the list operations that build new lists: pyList + list, sorted() and reversed() "
+    "never write into a backing array reachable from their operands/arguments (frame obligations with slice-origin tracking through interface "
+    "boxes and, for +, an append-into-spare-capacity check), so the results are fresh values and the inputs keep their contents — this exposed "
+    "and pins the repairs 4bfb74e (x + [a] and x + [b] aliased) and c1dc882 (sorted/reversed reordered their argument). Kernel-only and narrow: "
+    "agreement of every evaluated value with CPython is a relation to an external interpreter and is not a contract of any function here; the "
+    "parser, comprehensions, string methods and formatting are not under contract.",
+    COMMON_NOTE + "sort.Slice / slices.Reverse are assumed in-place permutations; the key function and comparison operators are arbitrary code "
+    "(modifies heap).",
+    "contract-based deductive verification (frame obligations over slice origins + SMT)", "6/C16")
+
+CLAIMED["C17"] = (
+    "Proof that freezing is deep and that frozen containers cannot be written: pyList.Freeze returns a pyFrozenList whose items are, position by "
+    "position, the frozen versions of the freezable items (loop invariant; exposed the defect repaired by 7019736: the original list was wrapped "
+    "instead of the frozen copy); pyDict.Freeze returns a pyFrozenDict over a FRESH map with the frozen version of every value (map-iteration "
+    "invariant); IndexAssign on pyFrozenList, pyFrozenDict and pyFrozenConfig, and setdefault on a frozen dict, never return normally; sorted(), "
+    "reversed() and list + list never write into their arguments (frame obligations), so a list another package holds is never reordered. "
+    "Kernel-only: that every value crossing a package boundary goes through Freeze (subinclude, CONFIG) and the absence of other mutators is the "
+    "interpreter's structure, not a per-function contract; concurrency of package parses is outside the sequential model.",
+    COMMON_NOTE + "(freezable).Freeze on an element is an interface call assumed to be a function of the element; interface-to-interface type "
+    "assertions are decided from go/types method sets.",
+    "contract-based deductive verification (loop and map-iteration invariants, must-not-return postconditions, frame obligations + SMT)", "6/C17")
+
+CLAIMED["C18"] = (
+    "Proof that the list builtins named in the statement accept frozen lists: in sorted, reversed, filter, map, reduce, enumerate, any, all, "
+    "min/max (extreme) and zip the 'must be a list' assertion cannot fail for a pyList or a pyFrozenList argument (call-site obligations on "
+    "scope.Assert; asList proved to succeed exactly on those two types and to return the items) — exposed the defect repaired by 8165d29; and "
+    "that == / != never apply reflect.DeepEqual (which separates frozen from ordinary containers) to a list or dict: pyEqual compares "
+    "containers item by item through asList/asDict and only other values by DeepEqual — exposed the defect repaired by 7900a64. "
+    "Kernel-only: len, in and + are promoted methods of the embedded pyList (nothing to prove); the dict builtins reach the embedded pyDict "
+    "through pyFrozenDict.Property and are not under contract.",
+    COMMON_NOTE + "Builtins are verified with callees opaque (opt inline=off); the user-supplied key/lambda is arbitrary code.",
+    "contract-based deductive verification (call-site obligations on the interpreter's assertion points, type-switch postconditions + SMT)", "6/C18")
+
 NOT_APPLICABLE = {
     "C05": "liveness / whole-run exit status under all schedules: no per-call contract expresses it (safety fragment is under C04)",
     "C30": "OS process groups, signals and wall-clock bounds; goroutines and select are outside the sequential contract model",
